@@ -125,6 +125,11 @@ void preload(string file) { rec("PRELOAD " + file); load_object(file); }
 string *epilog(int eflag) { return ({ }); }
 void preload(string file) { }
 #endif
+string *parse_command_prepos_list() { return ({ "from", "in", "on" }); }
+string parse_command_all_word() { return "all"; }
+string *parse_command_id_list() { return ({ "thing" }); }
+string *parse_command_plural_id_list() { return ({ "things" }); }
+string *parse_command_adjectiv_id_list() { return ({ }); }
 int valid_bind(object binder, object old_owner, object new_owner) { return 1; }
 void log_error(string file, string msg) { rec("LOGERR " + file + " " + msg); }
 
